@@ -863,57 +863,66 @@ def n5(ctx):
     pnames = [x.arg for x in a.posonlyargs + a.args]
     ctx.require(len(pnames) >= 4, 'AutoEntry.__new__: parameters not recognised')
     tparam = pnames[2]          # (cls, entry, type, kind)
-    # the dispatch chain: an if / elif chain whose every arm assigns one name from an entry class
-    chain = None
-    for s_ in walk(fn):
-        if isinstance(s_, ast.If):
-            arms = []
-            cur = s_
-            ok = True
-            while True:
-                if len(cur.body) == 1 and isinstance(cur.body[0], ast.Assign) and \
-                        isinstance(cur.body[0].value, ast.Name):
-                    arms.append((cur.test, cur.body[0].targets[0], cur.body[0].value.id))
-                else:
-                    ok = False
-                    break
-                if len(cur.orelse) == 1 and isinstance(cur.orelse[0], ast.If):
-                    cur = cur.orelse[0]
-                    continue
-                if len(cur.orelse) == 1 and isinstance(cur.orelse[0], ast.Assign) and \
-                        isinstance(cur.orelse[0].value, ast.Name):
-                    arms.append((None, cur.orelse[0].targets[0], cur.orelse[0].value.id))
-                break
-            if ok and len(arms) >= 4 and (chain is None or len(arms) > len(chain)):
-                chain = arms
-    ctx.require(chain is not None, 'AutoEntry.__new__: dispatch chain not recognised')
+    # the dispatch: every assignment of an entry class to one local, each with the outcomes of the
+    # tests it sits under (however the if / elif / else chain is written)
+    parent = {}
+    for n in ast.walk(fn):
+        for c in ast.iter_child_nodes(n):
+            parent[id(c)] = n
 
     def test_id(t):
-        if t is None:
-            return 'else'
         if isinstance(t, ast.Call) and len(t.args) >= 1 and is_name(t.args[0], tparam):
             cn = call_name(t)
             if cn == 'issubclass' and len(t.args) == 2:
                 return 'issubclass:' + src(t.args[1])
             return cn
         return src(t)
-    got = [(test_id(t), cls_) for t, _, cls_ in chain]
-    order = [g[0] for g in got]
+    ENTRY = {w for _, w, _ in N5_TABLE} | {'FlattenedEntry'}
+    assigns = [n for n in walk(fn) if isinstance(n, ast.Assign) and len(n.targets) == 1 and
+               isinstance(n.targets[0], ast.Name) and isinstance(n.value, ast.Name) and n.value.id in ENTRY]
+    tnames = {a.targets[0].id for a in assigns}
+    ctx.require(len(assigns) >= 5 and len(tnames) == 1,
+                'AutoEntry.__new__: dispatch not recognised (%d assignments to %s)' % (len(assigns), sorted(tnames)))
+    got = []          # (class, tests that hold, tests that do not hold)
+    for a in assigns:
+        pos, neg = set(), set()
+        cur = a
+        while id(cur) in parent:
+            p_ = parent[id(cur)]
+            if isinstance(p_, ast.If):
+                in_body = any(cur is x for x in p_.body)
+                in_else = any(cur is x for x in p_.orelse)
+                if in_body or in_else:
+                    t = p_.test
+                    outcome = in_body
+                    while isinstance(t, ast.UnaryOp) and isinstance(t.op, ast.Not):
+                        t = t.operand
+                        outcome = not outcome
+                    (pos if outcome else neg).add(test_id(t))
+            cur = p_
+        got.append((a.value.id, pos, neg))
     for tid, want, why in N5_TABLE:
-        sel = [c for t, c in got if t == tid]
+        sel = sorted({c for c, pos, neg in got if tid in pos})
         ctx.check('AutoEntry/%s' % tid, sel == [want],
                   'AutoEntry: %s(type) selects %s (%s)' % (tid, want, why),
                   'AutoEntry: %s(type) selects %s, not %s (%s): the accessor of such a node reads the '
                   'child the wrong way' % (tid, sel or 'nothing', want, why), mod.loc(fn))
-    ctx.check('AutoEntry/fallback', got[-1] == ('else', 'FlattenedEntry'),
+    fb = sorted({c for c, pos, neg in got if not pos})
+    ctx.check('AutoEntry/fallback', fb == ['FlattenedEntry'],
               'AutoEntry: any other type gets FlattenedEntry (no access method is claimed)',
-              'AutoEntry: the fallback arm is %s' % (got[-1],), mod.loc(fn))
-    viol = [(a_, b_) for a_, b_ in N5_BEFORE if a_ in order and b_ in order and order.index(a_) > order.index(b_)]
+              'AutoEntry: when no test holds the entry class is %s' % (fb or 'not set'), mod.loc(fn))
+    viol = []
+    for a_, b_ in N5_BEFORE:
+        # the generic arm is taken only when the specific test has failed
+        for c, pos, neg in got:
+            if b_ in pos and a_ not in neg and a_ not in pos:
+                viol.append((a_, b_))
     ctx.check('AutoEntry/specific-first', not viol,
               'AutoEntry tests the specific families (struct sequence, namedtuple, dataclass) before '
               'the abstract Mapping / Sequence tests they also satisfy',
-              'AutoEntry tests %s before %s: a %s is a %s too and would get the generic entry class'
-              % ((viol[0][1], viol[0][0], viol[0][0], viol[0][1]) if viol else ('', '', '', '')), mod.loc(fn))
+              'AutoEntry takes the %s arm without having excluded %s: a %s is a %s too and would get the '
+              'generic entry class' % ((viol[0][1], viol[0][0], viol[0][0], viol[0][1]) if viol else ('', '', '', '')),
+              mod.loc(fn))
 
 
 @rule('D4', floor=3, title='the Python-visible registry shows dict / defaultdict as the current mode of the asked namespace flattens them')
